@@ -47,7 +47,9 @@ fn box_setup(rng: &mut Rng, min_waist: f64, max_waist: f64) -> Result<(SPDC, Val
   let wp = waist(rng);
   let ws = waist(rng);
   let wi = waist(rng);
-  let theta_c = if poled { *rng.pick(&[90., 90., 60., 35., 25.]) } else { 45. };
+  // negative crystal angles give a NEGATIVE pump walk-off angle (tan rho < 0)
+  let theta_c = if poled { *rng.pick(&[90., 90., 60., 35., 25., -35., -60., -25.]) } else { 45. };
+  let flip_theta = !poled && rng.below(3) == 0;
   let phi_c = if rng.coin() { 0. } else { rng.range(0., 90.) };
   let mut cs = CrystalSetup {
     crystal: crystal.clone(),
@@ -67,6 +69,9 @@ fn box_setup(rng: &mut Rng, min_waist: f64, max_waist: f64) -> Result<(SPDC, Val
       PeriodicPoling::try_new_optimum(&signal, &pump, &cs, Apodization::Off).map_err(|e| format!("poling: {}", e))?
     } else {
       cs.assign_optimum_theta(&signal, &pump);
+      if flip_theta {
+        cs.theta = -cs.theta;
+      }
       PeriodicPoling::Off
     };
     let mut idler = IdlerBeam::try_new_optimum(&signal, &pump, &cs, &pp).map_err(|e| format!("idler: {}", e))?;
@@ -92,7 +97,94 @@ fn ff_of(spdc: &SPDC, ws: Frequency, wi: Frequency) -> f64 {
   *(0.5 * cs.length * dk / RAD)
 }
 
+/// `vharness c05 singles <seed> <n>`: observations for the GENERATED singles integrand (coq/Gen/PMSingles.v; consumer
+/// vlib/pmcases.py: singles_cases).  phasematch_singles_fiber_coupling exposes only 1/4 |quadrature of the integrand|; with
+/// Integrator::GaussLegendre { degree: 2 } the quadrature is a 4-node sum whose nodes and weights are read off by probing
+/// integrate2d with recording / indicator integrands, so the value is a known linear functional of four integrand values.
+pub fn run_singles(args: &[String]) {
+  use std::sync::Mutex;
+  let seed = arg_u64(args, 0, 1);
+  let n = arg_u64(args, 1, 2) as usize;
+  let mut rng = Rng::new(seed ^ 0x51);
+  let gl = Integrator::GaussLegendre { degree: 2 };
+  let rec: Mutex<Vec<(f64, f64)>> = Mutex::new(vec![]);
+  let _ = gl.integrate2d(|z: f64, w: f64| { rec.lock().unwrap().push((z, w)); Complex::new(1., 0.) }, -1., 1., -1., 1.);
+  let mut nodes: Vec<(f64, f64)> = rec.lock().unwrap().clone();
+  nodes.sort_by(|a, b| a.partial_cmp(b).unwrap());
+  nodes.dedup();
+  let weights: Vec<f64> = nodes.iter().map(|(a, b)| {
+    let (a, b) = (*a, *b);
+    gl.integrate2d(move |z: f64, w: f64| Complex::new(if z == a && w == b { 1. } else { 0. }, 0.), -1., 1., -1., 1.).re
+  }).collect();
+  emit(json!({"kind": "gl2", "nodes": nodes.iter().map(|(a, b)| json!([fx(*a), fx(*b)])).collect::<Vec<_>>(), "weights": fxs(&weights)}));
+  let mut made = 0;
+  let mut tries = 0;
+  while made < n && tries < 40 * n + 40 {
+    tries += 1;
+    let g = crate::c06::Gen { collinear: rng.below(4) == 0, min_waist: 30e-6, max_waist: 400e-6, apodize: true, equal_waists: false, elliptic: rng.coin() };
+    let (spdc, desc) = match crate::c06::random_setup(&mut rng, &g) {
+      Ok(x) => x,
+      Err(e) => { emit(json!({"kind": "skip", "why": e})); continue; }
+    };
+    let sigma = fwhm_to_spectral_width(spdc.pump.vacuum_wavelength(), spdc.pump_bandwidth);
+    let ws = spdc.signal.frequency() + rng.range(-0.5, 0.5) * sigma;
+    let wi = spdc.idler.frequency() + rng.range(-0.5, 0.5) * sigma;
+    let zs: Vec<f64> = {
+      let mut v: Vec<f64> = nodes.iter().map(|x| x.0).chain(nodes.iter().map(|x| x.1)).collect();
+      v.sort_by(|a, b| a.partial_cmp(b).unwrap());
+      v.dedup();
+      v
+    };
+    let r = guarded(|| {
+      let p = dump_params(&spdc, ws, wi, &zs);
+      let v = *(phasematch_singles_fiber_coupling(ws, wi, &spdc, gl) / PerMeter3::new(1.));
+      let vd = *(phasematch_singles_fiber_coupling(ws, wi, &spdc, Integrator::default()) / PerMeter3::new(1.));
+      (p, v, vd)
+    });
+    match r {
+      Ok((p, v, vd)) => { made += 1; emit(json!({"kind": "sgl", "setup": desc, "zs": fxs(&zs), "p": p, "gl2": fx(v), "default": fx(vd)})); }
+      Err(e) => emit(json!({"kind": "sgl_panic", "setup": desc, "why": e})),
+    }
+  }
+  emit(json!({"kind": "done"}));
+}
+
+/// `vharness c05 singles-corpus <file.jsonl>`: scalar dump (fields of Model/PMParams.v) of recorded C08 inputs {id, config, idler_waist_um,
+/// ws, wi}, for the setup and for its exchanged twin (idler singles are computed through the exchanged setup)
+pub fn run_singles_corpus(args: &[String]) {
+  let text = std::fs::read_to_string(args.first().map(|s| s.as_str()).unwrap_or("")).unwrap_or_default();
+  for line in text.lines() {
+    let e: Value = match serde_json::from_str(line) { Ok(v) => v, Err(_) => continue };
+    let cfg = e["config"].as_str().unwrap_or("").to_string();
+    let wi_um = e["idler_waist_um"].as_f64().unwrap_or(100.);
+    let hexf = |k: &str| f64::from_bits(u64::from_str_radix(e[k].as_str().unwrap_or("0x0").trim_start_matches("0x"), 16).unwrap_or(0));
+    let (os, oi) = (hexf("ws") * (RAD / S), hexf("wi") * (RAD / S));
+    let r = guarded(move || -> Result<SPDC, String> {
+      let mut s = SPDC::from_json(cfg).map_err(|e| e.to_string())?;
+      s.idler.set_waist(wi_um * 1e-6 * M);
+      s.assign_optimal_waist_positions();
+      Ok(s)
+    });
+    if let Ok(Ok(spdc)) = r {
+      let sw = spdc.clone().with_swapped_signal_idler();
+      let zs = [0.0];
+      let d = guarded(|| (dump_params(&spdc, os, oi, &zs), dump_params(&sw, oi, os, &zs),
+        *(phasematch_singles_fiber_coupling(os, oi, &spdc, Integrator::Simpson { divs: 200 }) / PerMeter3::new(1.)),
+        *(phasematch_singles_fiber_coupling(oi, os, &sw, Integrator::Simpson { divs: 200 }) / PerMeter3::new(1.))));
+      if let Ok((a, b, va, vb)) = d {
+        emit(json!({"kind": "corpus", "id": e["id"], "direct": a, "swapped": b, "singles_direct": fx(va), "singles_swapped": fx(vb)}));
+      }
+    }
+  }
+}
+
 pub fn run(args: &[String]) {
+  if args.first().map(|s| s.as_str()) == Some("singles") {
+    return run_singles(&args[1..]);
+  }
+  if args.first().map(|s| s.as_str()) == Some("singles-corpus") {
+    return run_singles_corpus(&args[1..]);
+  }
   let seed = arg_u64(args, 0, 1);
   let n_pw = arg_u64(args, 1, 12) as usize;
   let n_pt = arg_u64(args, 2, 4) as usize;
@@ -100,7 +192,7 @@ pub fn run(args: &[String]) {
   let integ = Integrator::default();
   emit(json!({"kind": "default_integrator", "debug": format!("{:?}", integ)}));
   // ---- rule extraction
-  for divs in [50usize, 20, 7, 6, 49] {
+  for divs in [50usize, 20, 7, 6, 49, 130, 131, 200] {
     for _ in 0..2 {
       let psi = rng.range(-3., 3.);
       let ff = rng.range(-12., 12.);
@@ -222,13 +314,16 @@ pub fn run(args: &[String]) {
         let t0 = solve(0.)?;
         let mut samples = vec![];
         let (a0, b0) = at(t0);
+        let big = Integrator::Simpson { divs: 130 };
         let f_pm = *(phasematch_fiber_coupling(a0, b0, &spdc, integ) / PerMeter4::new(1.));
-        samples.push((t0, g(t0), f_pm));
+        let f_pm_big = *(phasematch_fiber_coupling(a0, b0, &spdc, big) / PerMeter4::new(1.));
+        samples.push((t0, g(t0), f_pm, f_pm_big));
         for target in targets.iter() {
           if let Some(t) = solve(*target) {
             let (a, b) = at(t);
             let v = *(phasematch_fiber_coupling(a, b, &spdc, integ) / PerMeter4::new(1.));
-            samples.push((t, g(t), v));
+            let vb = *(phasematch_fiber_coupling(a, b, &spdc, big) / PerMeter4::new(1.));
+            samples.push((t, g(t), v, vb));
           }
         }
         Some(samples)
@@ -239,7 +334,7 @@ pub fn run(args: &[String]) {
           let zs = [0.0];
           let (a0, b0) = at(samples[0].0);
           let p = dump_params(&spdc, a0, b0, &zs);
-          let ss: Vec<Value> = samples.iter().map(|(t, ff, v)| json!({"t": fx(*t), "ff": fx(*ff), "v": cx(*v)})).collect();
+          let ss: Vec<Value> = samples.iter().map(|(t, ff, v, vb)| json!({"t": fx(*t), "ff": fx(*ff), "v": cx(*v), "v130": cx(*vb)})).collect();
           emit(json!({"kind": "pw", "setup": desc, "dir_rad": ang, "p": p, "samples": ss,
             "theta_c_deg": *(spdc.crystal_setup.theta / DEG)}));
         }
